@@ -62,6 +62,7 @@ def rv(c):
 
 
 POLY_NORMALISE = True
+SHARE_ATOMS = os.environ.get('SYMOPT_SHARE_ATOMS', '0') == '1'
 
 
 class Engine:
@@ -88,6 +89,8 @@ class Engine:
         self.keep = []         # keep z3 refs alive (ids are reused otherwise)
         self.sqrt_rad = {}     # sqrt atom id -> (numerator term, denominator term or None) of its radicand
         self.atom_cache = {}
+        self.poly_atoms = {}   # canonical polynomial -> (ta, tb, sign) of the first atom built for it
+        self.sqrt_poly = {}    # canonical radicand polynomial -> sqrt atom SV
 
     def fresh(self, name, sort='real'):
         self.n += 1
@@ -679,6 +682,10 @@ class SV:
             return SV(float('nan'))
         if key in E.memo:
             return E.memo[key][0]
+        r = self._sqrt_canonical()
+        if r is not None:
+            E.memo[key] = (r, st)
+            return r
         # canonical (sum-of-monomials) key: the same polynomial written differently shares its square root atom
         key2 = None
         try:
@@ -702,6 +709,53 @@ class SV:
         E.nonneg.add(v.get_id())
         E.keep.append(v)
         return r
+
+    def _sqrt_canonical(self):
+        """sqrt(n/d) = mono * fac * sqrt(rest) / |d| with  n d = mono^2 fac^2 rest  (exact polynomial arithmetic); the atom for
+        sqrt(rest) is shared between all radicands with the same canonical polynomial (scaled, mirrored, re-written copies)"""
+        from . import poly
+        try:
+            full = _toreal(self.n) if self.d is None else _toreal(self.n) * self.d.term()
+            if _term_size(full, 3000) >= 3000:
+                return None
+            atoms = {}
+            p = poly.from_term(full, atoms)
+            if p.is_zero() or len(p.c) > 1500:
+                return None
+            half, fac, rest = poly.square_content(p)
+            ckey = tuple(sorted(rest.c.items()))
+            v = E.sqrt_poly.get(ckey)
+            if v is None:
+                if len(rest.c) == 1 and () in rest.c:
+                    c = rest.c[()]
+                    if c < 0:
+                        return None
+                    v = SV(math.sqrt(float(c)))
+                    if v.c * v.c != float(c):
+                        return None
+                else:
+                    a = E.fresh('sqrt')
+                    rt = poly.to_term(rest, atoms)
+                    E.defs += [a >= 0, a * a == rt]
+                    E.sqrt_rad[a.get_id()] = (rt, None)
+                    E.nonneg.add(a.get_id())
+                    E.keep += [a, rt]
+                    v = SV(t=a)
+                E.sqrt_poly[ckey] = v
+            r = v
+            if fac != 1:
+                r = r * SV(t=z3.RealVal(str(fac)))
+            for i, e in sorted(half.items()):
+                b = SV(t=atoms[i])
+                if E.signs.get(i) != 1 and i not in E.nonneg:
+                    b = abs(b)
+                for _ in range(e):
+                    r = r * b
+            if self.d is not None:
+                r = r / abs(SV(t=self.d.term()))
+            return r
+        except (poly.TooBig, z3.Z3Exception):
+            return None
 
     # -- trigonometry: angles are SVs; (cos, sin) are memoised per simplified angle term
     def _trig(self):
@@ -828,6 +882,16 @@ class SV:
                     res = bool(zop(0, 0))
                 elif len(p.c) == 1 and () in p.c:
                     res = bool(zop(p.c[()], 0))
+                elif SHARE_ATOMS and len(p.c) <= 1500:
+                    # the same polynomial up to a positive factor: share ONE atom (the decision cache then recognises it)
+                    present = {i for m in p.c for i, _ in m}
+                    ckey, sg = poly.canonical(p, [i for i in present if E.signs.get(i) == 1])
+                    first = E.poly_atoms.get(ckey)
+                    if first is None:
+                        E.poly_atoms[ckey] = (ta, tb, sg)
+                    else:
+                        fa, fb, fs = first
+                        res = SymBool(zop(fa, fb)) if fs == sg else SymBool(zop(fb, fa))
             except poly.TooBig:
                 res = None
         if res is None:
